@@ -442,6 +442,19 @@ def protocol_cases():
         p.dataReceived(b'\0' + b'FOO ' + b'x' * 16380 + b'\r\n')
         if t.disconnecting or not t.value().startswith(b'ERROR'):
             return 'a line of exactly 16384 bytes: closed=%r replies %r' % (t.disconnecting, t.value()[:40])
+        # ... however it is cut: before its line end, between the CR and the LF, in small reads
+        stream16 = b'\0' + b'FOO ' + b'x' * 16380 + b'\r\n'
+        for how, cuts in (('line | CR LF', [16385]), ('line CR | LF', [16386]), ('nul | line CR | LF', [1, 16386]), ('1000-byte reads', list(range(1000, len(stream16), 1000)))):
+            p = bus.BusProtocol()
+            p.factory = F
+            t = StringTransport()
+            p.makeConnection(t)
+            prev = 0
+            for c in cuts + [len(stream16)]:
+                p.dataReceived(stream16[prev:c])
+                prev = c
+            if t.disconnecting or not t.value().startswith(b'ERROR'):
+                return 'a line of exactly 16384 bytes delivered as %s: closed=%r replies %r (in one read it is answered)' % (how, t.disconnecting, t.value()[:40])
         # an acceptable client may pipeline: its handshake, BEGIN and its first messages - far more than 16 KiB of them - in ONE
         # read (or cut anywhere); what follows BEGIN is message data, not an authentication line
         from txdbus import message as _msg
